@@ -29,7 +29,13 @@ def norm(t):
         return (t[0], t[1], t[2], tuple(norm(x) for x in t[3])) + t[4:]
     if t[0] in ("c", "param", "str", "bytes", "fn"):
         return t
+    if t[0] == "init" and t[1][0] == "F" and t[1][2] == "0" and t[1][1][0] == "D" and t[1][1][2] in _PAYLOAD and t[1][1][1][0] == "P":
+        # the payload of an Option/Result held in a place (`let Some(x) = p else ..`, `match p { Ok(x) => ..}`) is the payload of its value
+        return (_PAYLOAD[t[1][1][2]], norm(t[1][1][1][1]))
     return tuple(norm(x) if isinstance(x, tuple) else x for x in t)
+
+
+_PAYLOAD = {"Some": "someval", "Ok": "okval", "Err": "errval"}
 
 
 def residual_calls(path, views=True):
